@@ -298,9 +298,9 @@ func (e *ExecutionConfig) setProposerConfigOptions(_ context.Context,
 		}
 		updated[configRelay.Address] = struct{}{}
 	}
-	// Add new relays.
+	// Add new relays, unless they are disabled for this proposer.
 	for address, proposerRelayConfig := range proposerConfig.Relays {
-		if _, alreadyUpdated := updated[address]; !alreadyUpdated {
+		if _, alreadyUpdated := updated[address]; !alreadyUpdated && !proposerRelayConfig.Disabled {
 			relays = append(relays, e.generateRelayConfig(address, proposerConfig, proposerRelayConfig, fallbackFeeRecipient, fallbackGasLimit))
 		}
 	}
